@@ -30,6 +30,11 @@ def unique_affinity(n):
     return A
 
 
+def global_kernel(X, Y=None):
+    X = np.asarray(X, dtype=float)
+    return X @ X.T / (1.0 + float((X * X).sum()))
+
+
 def _data(n, d=2):
     if n > 12:        # continuous draws: rows distinct almost surely (checked), no minimal-gap requirement
         X = np.random.RandomState(3000 + n).normal(size=(n, d))
@@ -53,6 +58,12 @@ def run_case(case):
         kw["gemini"] = "mi"
     elif aff_mode == "computed":
         kw["gemini"] = "mmd_ova"
+    elif aff_mode == "dynamic_callable":
+        # dynamic path: the affinity is recomputed on the selected features at every step, with a user kernel that depends on the WHOLE data
+        # set it is given (normalised by the total energy), so that a per-batch computation is not the block of the full affinity
+        from gemclus.gemini import MMDGEMINI
+        kw["gemini"] = MMDGEMINI(kernel=global_kernel)
+        kw["dynamic"] = True
     else:
         from gemclus.gemini import MMDGEMINI
 
@@ -78,7 +89,7 @@ def run_case(case):
         if pairs_ml is None and pairs_cl is None:
             return {"v": [], "stats": {"evals": 0}}
         model = add_mlcl_constraint(model, pairs_ml, pairs_cl, 0.5)
-    spy = seams.BatchSpy(model)
+    spy = seams.BatchSpy(model, on_batch=(lambda rec: rec.__setitem__("sel", np.asarray(model.get_selection()).copy())) if aff_mode == "dynamic_callable" else None)
     updates = {"n": 0}
 
     used = []
@@ -90,6 +101,35 @@ def run_case(case):
     rs = seams.ScriptedRandomState(7, perm_script=[list(p) for p in script])
     where = dict(family=family, n=n, batch_size=bs, affinity=aff_mode, decorated=decorated, mode=mode)
     v = []
+    import gemclus.sparse._base_sparse as _bs
+    real_cvs, val_calls = _bs.compute_val_score, []
+
+    def cvs_spy(clf, Xa, ya, bsz, gem):
+        val_calls.append((len(spy.log), np.asarray(clf.get_selection()).copy()))
+        return real_cvs(clf, Xa, ya, bsz, gem)
+    if aff_mode == "dynamic_callable":
+        _bs.compute_val_score = cvs_spy
+    try:
+        v_pre = _run_training(model, mode, X, y, K, n, rs, cb, spy, updates)
+    finally:
+        _bs.compute_val_score = real_cvs
+    # selection at the start of each path step = selection seen by the validation call that opens the step (the second of two consecutive
+    # validation calls with no training epoch in between); epochs of the initial fit use all features
+    step_sel = {}
+    cur = np.arange(X.shape[1])
+    starts = {}
+    for i_, (ep, sel_) in enumerate(val_calls):
+        if i_ > 0 and val_calls[i_ - 1][0] == ep:
+            starts[ep] = sel_
+    for e_ in range(len(spy.log)):
+        if e_ in starts:
+            cur = starts[e_]
+        step_sel[e_] = cur
+    v.extend(v_pre)
+    return _judge(case, model, spy, X, y, K, n, rs, updates, used, where, v, step_sel)
+
+
+def _run_training(model, mode, X, y, K, n, rs, cb, spy, updates):
     with seams.scripted_rng(rs), seams.optimiser_spy(cb):
         if mode in ("refit_up", "refit_down"):
             # history: the same (possibly decorated) instance was first fitted on data of another size
@@ -103,10 +143,15 @@ def run_case(case):
             model.fit(X, y)
         else:
             model.path(X, y, alpha_multiplier=2.0, min_features=1, max_patience=1)
+    return []
+
+
+def _judge(case, model, spy, X, y, K, n, rs, updates, used, where, v, step_sel):
+    family, n, bs, aff_mode, max_iter, decorated, script, mode = case
     eff_bs = n if (bs is None or family == "CategoricalModel") else bs
     nb = math.ceil(n / eff_bs)
     # expected full affinity the batches must be cut from
-    if family == "KernelRIM" or aff_mode == "none":
+    if family == "KernelRIM" or aff_mode in ("none", "dynamic_callable"):
         Afull = None
     elif aff_mode == "computed":
         Afull = X @ X.T
@@ -123,7 +168,12 @@ def run_case(case):
                                                               "batch_size": eff_bs}, **where))
         for b in epoch:
             idx = b["idx"]
-            if Afull is None:
+            if aff_mode == "dynamic_callable":
+                sel = step_sel.get(e, np.arange(X.shape[1]))
+                exp = global_kernel(X[:, sel])[np.ix_(idx, idx)] if len(sel) else None
+                if exp is not None and (b["A"] is None or b["A"].shape != exp.shape or not np.allclose(b["A"], exp, rtol=1e-12, atol=0)):
+                    v.append(violation("affinity_block_misaligned", {"epoch": e, "idx": idx, "selected_features": sel, "got": b["A"], "expected": exp}, **where))
+            elif Afull is None:
                 if b["A"] is not None:
                     v.append(violation("affinity_given_when_none_expected", {"epoch": e, "idx": idx}, **where))
             else:
@@ -217,6 +267,12 @@ def explorers(tier, seed):
                     cases.append((family, 33, 8, "none" if family == "KernelRIM" else "precomputed", 2, True, (), mode))
     pc = []
     for family in ("SparseLinearModel", "SparseMLPModel"):
+        for n in (5, 6, 40):
+            for bs in (2, 3, None):
+                pc.append((family, n, bs, "dynamic_callable", 2, False, (), "path"))
+                if n <= 6:
+                    for p in list(itertools.permutations(range(n)))[::17]:
+                        pc.append((family, n, bs, "dynamic_callable", 2, False, (p,), "path"))
         for n, bs in ((40, 16), (40, None), (65, 32)):
             for aff_mode in ("none", "precomputed"):
                 pc.append((family, n, bs, aff_mode, 2, False, (), "path"))
